@@ -14,6 +14,7 @@ mod robs_list;
 mod robs_vec;
 mod io;
 mod rng;
+mod rwlock;
 mod robs_map;
 mod robs_set;
 mod transport;
@@ -72,6 +73,58 @@ pub fn drive(
             let mut input = vec![comp];
             input.extend(inp);
             emit(out, &Case { input, output: o, sig, oracle });
+        }
+    }
+}
+
+/// Separator between a case and the observation appended to it (trace acceptance).
+pub const OBS_SEP: u128 = 777_777_777;
+
+/// Driver for trace acceptance: like [drive], but `exec` also returns the observation of the
+/// implementation, which is appended to the printed input behind [OBS_SEP]; the model side then
+/// decides whether that observation is one of its histories.  On replay an observation already
+/// present in the line is replaced by the fresh one.
+pub fn drive_accept(
+    comp: u128, seed: u64, count: usize, extra: &[String], out: &mut impl Write,
+    mut gen: impl FnMut(&mut rng::Rng, usize) -> Vec<Vec<u128>>,
+    mut exec: impl FnMut(&[u128]) -> (Vec<u128>, Vec<u128>, String, String),
+) {
+    let mut one = |inp: &[u128], out: &mut dyn Write| {
+        let inp: Vec<u128> = inp.iter().copied().take_while(|x| *x != OBS_SEP).collect();
+        out.flush().unwrap();
+        watchdog_arm(comp, &inp);
+        let (obs, o, sig, oracle) = exec(&inp);
+        watchdog_disarm();
+        let mut input = vec![comp];
+        input.extend(inp);
+        input.push(OBS_SEP);
+        let obs_empty = obs.is_empty();
+        input.extend(obs);
+        let j = |v: &Vec<u128>| v.iter().map(|x| x.to_string()).collect::<Vec<_>>().join(" ");
+        writeln!(out, "{}\t{}\t{}\t{}", j(&input), j(&o), sig, oracle).unwrap();
+        if oracle != "ok" && !obs_empty {
+            // the acceptance verdict of a case whose oracle fails (possibly a known finding) must stay
+            // visible: same input and output again, judged by the model comparison only
+            let sig2 = format!("acc:{}", sig.trim_start_matches("F5:"));
+            writeln!(out, "{}\t{}\t{}\tok", j(&input), j(&o), sig2).unwrap();
+        }
+    };
+    if let Some(pos) = extra.iter().position(|a| a == "--replay") {
+        let text = std::fs::read_to_string(&extra[pos + 1]).expect("replay file");
+        for line in text.lines() {
+            let line = line.split('\t').next().unwrap_or("");
+            let nums: Vec<u128> = line.split_whitespace().filter_map(|t| t.parse().ok()).collect();
+            if nums.first() == Some(&comp) {
+                one(&nums[1..], out);
+            }
+        }
+        return;
+    }
+    let mut r = rng::Rng::new(seed);
+    for i in 0..count {
+        let mut rr = r.fork();
+        for inp in gen(&mut rr, i) {
+            one(&inp, out);
         }
     }
 }
@@ -140,6 +193,7 @@ fn main() {
         "io" => io::run(seed, count, &extra, &mut out),
         "handle" => handle::run(seed, count, &extra, &mut out),
         "lazy" => lazy::run(seed, count, &extra, &mut out),
+        "rwlock" => rwlock::run(seed, count, &extra, &mut out),
         _ => {
             eprintln!("unknown component {comp}");
             std::process::exit(2);
